@@ -94,3 +94,12 @@ func verifFill(op string, state *fillState, oldName, newName string) {
 		VerifFillHook(op, state.currentDimension, append([]int(nil), state.currentIndices...), state.ellipsisCount, state.multipleEllipsis, oldName, newName)
 	}
 }
+
+// VerifChildren returns the item nodes a list node holds (placeholders at variable
+// positions included), without copying them; nil for every other node.
+func VerifChildren(n ItemNode) []ItemNode {
+	if l, ok := n.(*ListNode); ok {
+		return append([]ItemNode(nil), l.values...)
+	}
+	return nil
+}
